@@ -92,6 +92,14 @@ def rel_between_linearisation_points(net):
     agree to eps = 0.0005 mm; a transverse offset x of the approximate coordinates at sight length D costs x^2/(2D), so
     approximations may still be off by sqrt(2 eps D) and the design-matrix coefficients (and what is computed from
     them) by sqrt(2 eps / D) relative, per run: 2 sqrt(1e-6 m / Dmin), not below the 2e-4 used for v'Pv."""
+    dmin = min_sight(net)
+    if not math.isfinite(dmin):
+        return 2e-4
+    return max(2e-4, 2 * math.sqrt(1e-6 / dmin))
+
+
+def min_sight(net):
+    """shortest sight / observed length of the network [m] (inf if there is none)"""
     dmin = float("inf")
     P = net.points
     for cl in net.clusters:
@@ -103,9 +111,23 @@ def rel_between_linearisation_points(net):
                     d = math.sqrt((a.E - b.E) ** 2 + (a.N - b.N) ** 2 + ((a.H - b.H) ** 2 if net.dim == 3 else 0.0))
                     if d > 0:
                         dmin = min(dmin, d)
-    if not math.isfinite(dmin):
-        return 2e-4
-    return max(2e-4, 2 * math.sqrt(1e-6 / dmin))
+    return dmin
+
+
+def linearisation_bound_residual_term(ref, coords, x, dmin):
+    """Second part of what the stopping rule leaves open [mm]: Gauss-Newton neglects the change of the design matrix
+    between the linearisation point and the solution.  With approximations off by up to sqrt(2 eps D) the coefficients
+    are off by sqrt(2 eps / D) relative, and the normal equations by |Aw|' (rel |vw|) with the homogenised residuals vw:
+    large residuals (a blunder kept just below tol-abs) make two runs that stopped at different points differ by
+    |T N+ T'| |Aw|' rel |vw|."""
+    cols = [j - 1 for j in coords]
+    if not cols or ref.T is None or not math.isfinite(dmin) or dmin <= 0:
+        return 0.0
+    rel = math.sqrt(1e-6 / dmin)
+    vw = np.abs(ref.Aw @ np.asarray(x, dtype=float) - ref.bw)
+    g = np.abs(ref.Aw).T @ (rel * vw)
+    Q = np.abs(ref.T @ ref.Npinv @ ref.T.T)
+    return float((Q @ g)[cols].max())
 
 
 def linearisation_bound(ref, coords):
